@@ -3,13 +3,15 @@
 // C04 harness, part 4: the pool follows service discovery through its own watcher.
 // Here nothing calls useService for the pool: the spec names a serviceRegistry, the pool runs
 // watchServers against a real ServiceRegistry system controller (mock supervisor) and an
-// in-memory registry driver plays the external registry. The driver may come up before or after
-// the pool is created (pipelines and registry controllers start in no particular order), so the
-// pool's first lookup succeeds or fails; in both cases "the tagged instances last reported by
-// service discovery" is the pool's current list as soon as a report has been delivered.
+// in-memory registry driver plays the external registry the way the real drivers do (first sync =
+// replace event, later syncs = NewRegistryEventFromDiff, dropped when Empty()). The driver may come
+// up before or after the pool is created, may be deregistered and registered again (what a driver
+// does when its spec is updated), several generations of the proxy may watch the service at once,
+// and a backend listing may fail. In all cases "the tagged instances last reported by service
+// discovery" is the current list of every open generation.
 //
 // Delivery is asynchronous (driver -> registry goroutine -> watcher channel -> pool goroutine).
-// No wall clock is used to decide when a report has arrived; see vfC04Driver.report.
+// No wall clock decides when a report has arrived or that it never will: see vfC04Snapshot.
 package proxy
 
 import (
@@ -29,20 +31,24 @@ import (
 
 const (
 	vfC04RegistryName = "vfreg"
-	// the service watcher channel holds 10 events; after 12 accepted events of the same content
-	// the pool's goroutine has received at least two of them, i.e. finished applying the first
-	vfC04Heartbeats = 12
-	// harness barrier only (never a verdict): a blocked hand-over means a stuck goroutine
+	// harness guard only (never a verdict): an expired wait without a proof is VF-INCONCLUSIVE
 	vfC04BarrierTimeout = 120 * time.Second
+	vfC04Burst          = 12 // more than the capacity (10) of a service watcher's channel
 )
 
 // vfC04Driver is a minimal in-memory registry driver (serviceregistry.Registry).
 type vfC04Driver struct {
 	mu             sync.Mutex
-	instances      map[string]*serviceregistry.ServiceInstanceSpec
+	instances      map[string]*serviceregistry.ServiceInstanceSpec // the backend's truth
+	reported       map[string]*serviceregistry.ServiceInstanceSpec // what the registry was told last
+	firstDone      bool
 	failing        bool // the backend call behind ListServiceInstances fails (transient outage)
 	failedListings int
 	notify         chan *serviceregistry.RegistryEvent // unbuffered: a send returns when the registry took the event
+}
+
+func vfC04NewDriver(content map[string]*serviceregistry.ServiceInstanceSpec) *vfC04Driver {
+	return &vfC04Driver{instances: content, notify: make(chan *serviceregistry.RegistryEvent)}
 }
 
 func (d *vfC04Driver) Name() string                                  { return vfC04RegistryName }
@@ -72,13 +78,17 @@ func (d *vfC04Driver) ListServiceInstances(serviceName string) (map[string]*serv
 	return res, nil
 }
 func (d *vfC04Driver) ListAllServiceInstances() (map[string]*serviceregistry.ServiceInstanceSpec, error) {
+	return d.content(), nil
+}
+
+func (d *vfC04Driver) content() map[string]*serviceregistry.ServiceInstanceSpec {
 	d.mu.Lock()
 	defer d.mu.Unlock()
 	res := map[string]*serviceregistry.ServiceInstanceSpec{}
 	for k, v := range d.instances {
 		res[k] = v.DeepCopy()
 	}
-	return res, nil
+	return res
 }
 
 func (d *vfC04Driver) set(m map[string]*serviceregistry.ServiceInstanceSpec) {
@@ -95,124 +105,253 @@ func (d *vfC04Driver) setFailing(f bool) (failed int) {
 	return failed
 }
 
-// vfC04BlockedForever is the proof that a registry event can never be delivered, taken from one
-// atomic snapshot of all goroutines (runtime.Stack stops the world), not from a clock:
-//   - some goroutine sits in ServiceRegistry._handleRegistryEvent in state "chan send": the watcher
-//     channel it sends to is full (capacity 10) and, since the registry mutex is held there, no
-//     other event, lookup or watcher registration can make progress either;
-//   - every goroutine that reads watcher channels (ServerPool.watchServers.func*) is parked in
-//     "select". A goroutine parks only when none of its channels is ready and a later send wakes
-//     it directly (it would show as runnable), so none of their channels is the full one.
-//
-// Hence the full channel has no reader and never will. A dispatcher that is merely slow has a
-// reader that is running/runnable and the snapshot does not qualify.
-func vfC04BlockedForever() string {
-	buf := make([]byte, 4<<20)
-	buf = buf[:runtime.Stack(buf, true)]
-	var blocked string
-	readers, parked := 0, 0
-	for _, g := range strings.Split(string(buf), "\n\n") {
-		nl := strings.IndexByte(g, '\n')
-		if nl < 0 {
-			continue
-		}
-		head, body := g[:nl], g[nl:]
-		lb := strings.IndexByte(head, '[')
-		if lb < 0 {
-			continue
-		}
-		state := head[lb+1:]
-		if strings.Contains(body, "serviceregistry.(*ServiceRegistry)._handleRegistryEvent") && strings.HasPrefix(state, "chan send") {
-			blocked = head
-		}
-		if strings.Contains(body, "proxy.(*ServerPool).watchServers.func") {
-			readers++
-			if strings.HasPrefix(state, "select") {
-				parked++
-			}
-		}
-	}
-	if blocked != "" && readers == parked {
-		return fmt.Sprintf("%s is blocked in ServiceRegistry._handleRegistryEvent on a send to a full watcher channel while holding the registry mutex; all %d watcher-reading goroutines (ServerPool.watchServers) are parked in select, so nobody reads that channel", strings.TrimSuffix(blocked, ":"), readers)
-	}
-	return ""
+// vfC04Snapshot is one atomic picture of all goroutines (runtime.Stack stops the world). The
+// verdicts "delivered" and "never" are read from such a picture, not from a clock. They rest on
+// one fact about Go channels: a goroutine shown as parked in "select" found none of its channels
+// ready when it parked, and a later send on one of them would have handed the value over and made
+// it runnable (it would not show as "select" any more).
+type vfC04Snapshot struct {
+	dispatcherBlocked string // header of a goroutine in ServiceRegistry._handleRegistryEvent in state "chan send"
+	dispatchBlocked   int    // number of such goroutines
+	inDispatch        int    // goroutines inside _handleRegistryEvent (any state)
+	readers, parked   int    // ServerPool.watchServers goroutines (they read the watcher channels) / parked in select
+	loops, loopsIdle  int    // ServiceRegistry.watchRegistry goroutines (they read the driver channels) / parked in select
+	sendersBlocked    int    // harness goroutines blocked handing an event to the registry
 }
 
-// await waits for a hand-over / call to complete. A clock only paces the snapshots; the verdict
-// "never" comes from vfC04BlockedForever, an expired wait alone is inconclusive.
-func vfC04Await(done <-chan struct{}, what string) (proof string, err error) {
-	deadline := time.NewTimer(vfC04BarrierTimeout)
-	defer deadline.Stop()
-	tick := time.NewTicker(100 * time.Millisecond)
-	defer tick.Stop()
-	for {
+var (
+	// vfC04Base: goroutines left behind by earlier cases of this process in which a permanent block
+	// was proven (they can never be shut down; only relevant while rapid shrinks a failure)
+	vfC04Base        vfC04Snapshot
+	vfC04StackBuf    = make([]byte, 1<<20)
+	vfC04NamesProven bool // the goroutine names the proofs rely on were seen at least once
+)
+
+func vfC04TakeSnapshot() (s vfC04Snapshot) {
+	n := runtime.Stack(vfC04StackBuf, true)
+	for n == len(vfC04StackBuf) {
+		vfC04StackBuf = make([]byte, 2*len(vfC04StackBuf))
+		n = runtime.Stack(vfC04StackBuf, true)
+	}
+	for _, g := range strings.Split(string(vfC04StackBuf[:n]), "\n\n") {
+		nl := strings.IndexByte(g, '\n')
+		lb := strings.IndexByte(g, '[')
+		if nl < 0 || lb < 0 || lb > nl {
+			continue
+		}
+		head, state, body := g[:nl], g[lb+1:nl], g[nl:]
+		if strings.Contains(body, "serviceregistry.(*ServiceRegistry)._handleRegistryEvent") {
+			s.inDispatch++
+			if strings.HasPrefix(state, "chan send") {
+				s.dispatcherBlocked = strings.TrimSuffix(head, ":")
+				s.dispatchBlocked++
+			}
+		}
+		switch {
+		case strings.Contains(body, "proxy.(*ServerPool).watchServers.func"):
+			s.readers++
+			if strings.HasPrefix(state, "select") {
+				s.parked++
+			}
+		case strings.Contains(body, "serviceregistry.(*ServiceRegistry).watchRegistry"):
+			s.loops++
+			if strings.HasPrefix(state, "select") {
+				s.loopsIdle++
+			}
+		case strings.Contains(body, "proxy.(*vfC04Driver).send.func") && strings.HasPrefix(state, "chan send"):
+			s.sendersBlocked++
+		}
+	}
+	return s
+}
+
+// vfC04StableSnapshot: the goroutines left over once everything that can still move has moved.
+func vfC04StableSnapshot() vfC04Snapshot {
+	prev := vfC04TakeSnapshot()
+	for i := 0; i < 200; i++ {
+		time.Sleep(5 * time.Millisecond)
+		cur := vfC04TakeSnapshot()
+		if cur == prev && i >= 3 {
+			break
+		}
+		prev = cur
+	}
+	return prev
+}
+
+// never returns a proof that the pending hand-over / call can never complete, or "".
+func (s vfC04Snapshot) never() (key, proof string) {
+	// (1) the dispatcher is blocked on a full watcher channel (holding the registry mutex) and every
+	// goroutine that reads watcher channels is parked: none of their channels is the full one
+	b := vfC04Base
+	if s.dispatchBlocked > b.dispatchBlocked && s.readers-s.parked == b.readers-b.parked {
+		return "discovery-dispatch-blocked-forever", fmt.Sprintf("%s is blocked in ServiceRegistry._handleRegistryEvent on a send to a full watcher channel while holding the registry mutex; all %d watcher-reading goroutines (ServerPool.watchServers) are parked in select, so nobody reads that channel", s.dispatcherBlocked, s.readers)
+	}
+	// (2) the driver is blocked handing an event to the registry and every registry loop is parked
+	// in select (or none exists): none of them listens to this driver's channel
+	if s.sendersBlocked > b.sendersBlocked && s.loops-s.loopsIdle == b.loops-b.loopsIdle && s.inDispatch == b.inDispatch {
+		return "discovery-event-never-dispatched", fmt.Sprintf("the driver is blocked handing an event to the registry while all %d ServiceRegistry.watchRegistry goroutine(s) are parked in select: no goroutine listens to the registered driver's notify channel", s.loops)
+	}
+	return "", ""
+}
+
+// quiescent: nothing is being dispatched and every reader of a watcher channel is parked, i.e. every
+// event handed over so far has been consumed and applied by the pools.
+func (s vfC04Snapshot) quiescent() bool {
+	b := vfC04Base
+	return s.inDispatch == b.inDispatch && s.readers-s.parked == b.readers-b.parked &&
+		s.loops-s.loopsIdle == b.loops-b.loopsIdle && s.sendersBlocked == b.sendersBlocked
+}
+
+// vfC04Await waits until done is closed (and, if settle, until the system is quiescent). A clock
+// only paces the snapshots.
+func vfC04Await(done <-chan struct{}, settle bool, what string) (key, proof string, err error) {
+	deadline := time.Now().Add(vfC04BarrierTimeout)
+	pause := 50 * time.Microsecond
+	for i := 0; ; i++ {
+		finished := false
 		select {
 		case <-done:
-			return "", nil
-		case <-tick.C:
-			if p := vfC04BlockedForever(); p != "" {
-				return p, nil
+			finished = true
+		default:
+		}
+		if finished && !settle {
+			return "", "", nil
+		}
+		if finished || i >= 6 { // do not take snapshots for hand-overs that complete at once
+			s := vfC04TakeSnapshot()
+			if finished && s.quiescent() {
+				return "", "", nil
 			}
-		case <-deadline.C:
-			return "", fmt.Errorf("%s did not complete within %v and no proof of a permanent block", what, vfC04BarrierTimeout)
+			if k, p := s.never(); k != "" {
+				return k, p, nil
+			}
+		}
+		if time.Now().After(deadline) {
+			return "", "", fmt.Errorf("%s did not complete within %v and there is no proof of a permanent block", what, vfC04BarrierTimeout)
+		}
+		if !finished {
+			select {
+			case <-done:
+			case <-time.After(pause):
+			}
+		} else {
+			time.Sleep(pause)
+		}
+		if pause < 20*time.Millisecond {
+			pause *= 2
 		}
 	}
 }
 
-func (d *vfC04Driver) send(ev *serviceregistry.RegistryEvent) (proof string, err error) {
-	done := make(chan struct{})
-	go func() { d.notify <- ev; close(done) }() // stays behind only after a proven permanent block
-	return vfC04Await(done, "hand-over of a registry event")
+var vfC04Closed = func() chan struct{} { c := make(chan struct{}); close(c); return c }()
+
+// send hands one event to the registry, then an empty one (the registry ignores it): the registry
+// loop takes events one at a time, so when the second has been taken the first has been dispatched.
+func (d *vfC04Driver) send(ev *serviceregistry.RegistryEvent) (key, proof string, err error) {
+	for _, e := range []*serviceregistry.RegistryEvent{ev, {}} {
+		done := make(chan struct{})
+		e := e
+		go func() { d.notify <- e; close(done) }() // stays behind only after a proven permanent block
+		if key, proof, err = vfC04Await(done, false, "hand-over of a registry event"); key != "" || err != nil {
+			return
+		}
+	}
+	return
 }
 
-// report replaces the content of the registry and returns once every pool that watches the
-// service has applied it, without looking at a clock:
-//   - the notify channel is unbuffered and the registry handles events one at a time, so when
-//     the (ignored) empty event behind a report has been taken, that report has been handed to
-//     every service watcher's channel;
-//   - the same content is reported vfC04Heartbeats times (a registry resync does exactly that);
-//     a watcher channel buffers 10 events, so when all hand-overs have returned every watching
-//     pool's goroutine has received at least two of them and therefore finished applying the first.
-//
-// A pool that runs no watcher receives nothing and the hand-overs return at once: it is then
-// judged on the list it is still using.
-func (d *vfC04Driver) report(m map[string]*serviceregistry.ServiceInstanceSpec) (proof string, err error) {
+// sync is the drivers' update(): first sync = replace event, later = diff, nothing when Empty().
+func (d *vfC04Driver) sync(m map[string]*serviceregistry.ServiceInstanceSpec) (kind, key, proof string, err error) {
 	d.set(m)
-	for i := 0; i < vfC04Heartbeats; i++ {
-		replace := map[string]*serviceregistry.ServiceInstanceSpec{}
-		for k, v := range m {
-			replace[k] = v.DeepCopy()
-		}
-		if proof, err = d.send(&serviceregistry.RegistryEvent{UseReplace: true, Replace: replace}); proof != "" || err != nil {
-			return
-		}
-		if proof, err = d.send(&serviceregistry.RegistryEvent{}); proof != "" || err != nil { // barrier
-			return
+	var ev *serviceregistry.RegistryEvent
+	if !d.firstDone {
+		d.firstDone = true
+		ev = &serviceregistry.RegistryEvent{SourceRegistryName: d.Name(), UseReplace: true, Replace: d.content()}
+		kind = "first-sync-replace"
+	} else {
+		ev = serviceregistry.NewRegistryEventFromDiff(d.Name(), d.reported, d.content())
+		switch {
+		case len(ev.Apply) > 0 && len(ev.Delete) > 0:
+			kind = "diff-apply+delete"
+		case len(ev.Apply) > 0:
+			kind = "diff-apply-only"
+		case len(ev.Delete) > 0:
+			kind = "diff-delete-only"
+		default:
+			kind = "diff-nothing"
 		}
 	}
-	return "", nil
+	if ev.Empty() {
+		return kind + "(not notified: Empty)", "", "", nil
+	}
+	if key, proof, err = d.send(ev); key != "" || err != nil {
+		return
+	}
+	d.reported = d.content()
+	return
 }
 
 func (r vfC04Report) asRegistryMap(p *vfC04Pool) map[string]*serviceregistry.ServiceInstanceSpec {
-	m := r.asMap(p)
-	for _, v := range m {
-		v.RegistryName = vfC04RegistryName
-	}
 	out := map[string]*serviceregistry.ServiceInstanceSpec{}
-	for _, v := range m {
+	for _, v := range r.asMap(p) {
+		v.RegistryName = vfC04RegistryName
 		out[v.Key()] = v
 	}
 	return out
 }
 
-// TestVerifC04Watcher: start-up order x generations of the pool x reports delivered through the
-// real watcher path x transient listing failures.
+// vfC04WatchEnv is one ServiceRegistry controller on a mock supervisor.
+type vfC04WatchEnv struct {
+	sr    *serviceregistry.ServiceRegistry
+	super *supervisor.Supervisor
+}
+
+func vfC04NewWatchEnv() (*vfC04WatchEnv, error) {
+	entity, err := supervisor.NewDefaultMock().NewObjectEntityFromConfig("name: ServiceRegistry\nkind: ServiceRegistry\nsyncInterval: 10s\n")
+	if err != nil {
+		return nil, err
+	}
+	entity.InitWithRecovery(nil)
+	var sysCtrls sync.Map
+	sysCtrls.Store(serviceregistry.Kind, entity)
+	return &vfC04WatchEnv{sr: entity.Instance().(*serviceregistry.ServiceRegistry),
+		super: supervisor.NewMock(option.New(), nil, sync.Map{}, sysCtrls, nil, nil, false, nil, nil)}, nil
+}
+
+// vfC04Calibrate checks once that the goroutine names the snapshot proofs rely on exist in this
+// tree: a registered driver and a discovery pool must show one registry loop and one reader.
+func vfC04Calibrate(t *testing.T) {
+	env, err := vfC04NewWatchEnv()
+	if err != nil {
+		t.Fatalf("VF-INCONCLUSIVE cannot create the ServiceRegistry controller: %v", err)
+	}
+	d := vfC04NewDriver(nil)
+	if err := env.sr.RegisterRegistry(d); err != nil {
+		t.Fatalf("VF-INCONCLUSIVE RegisterRegistry: %v", err)
+	}
+	px, err := vfC04NewProxySuper(env.super, "name: vfproxy\nkind: Proxy\npools:\n- servers:\n  - url: http://10.0.0.1:80\n  serverTags: [\"v1\"]\n  serviceName: vfsvc-main\n  serviceRegistry: "+vfC04RegistryName+"\n")
+	if err != nil {
+		t.Fatalf("VF-INCONCLUSIVE calibration proxy: %v", err)
+	}
+	s := vfC04TakeSnapshot()
+	px.Close()
+	env.sr.DeregisterRegistry(vfC04RegistryName)
+	env.sr.Close()
+	if s.readers < 1 || s.loops < 1 {
+		t.Fatalf("VF-INCONCLUSIVE the goroutines the delivery proofs rely on were not found (ServerPool.watchServers readers=%d, ServiceRegistry.watchRegistry loops=%d): the harness must be adapted to the tree", s.readers, s.loops)
+	}
+	vfC04NamesProven = true
+}
+
+// TestVerifC04Watcher: start-up order x generations of the pool x driver re-registration x reports
+// delivered through the real watcher path (driver-style diffs) x transient listing failures.
 func TestVerifC04Watcher(t *testing.T) {
 	vf := vfBegin(t, "C04")
 	defer vf.End()
 	saved := fnSendRequest
 	fnSendRequest = vfC04Send
 	defer func() { fnSendRequest = saved }()
+	vfC04Calibrate(t)
 	rapid.Check(t, func(rt *rapid.T) {
 		m := &vfC04Machine{vf: vf}
 		p := vfC04GenPool(rt, "main", 0, vfC04GenOpts{forceDiscovery: true, registry: vfC04RegistryName})
@@ -220,17 +359,13 @@ func TestVerifC04Watcher(t *testing.T) {
 		m.pools = []*vfC04Pool{p}
 		m.yaml = vfC04ProxyYAML(m.pools)
 
-		entity, err := supervisor.NewDefaultMock().NewObjectEntityFromConfig("name: ServiceRegistry\nkind: ServiceRegistry\nsyncInterval: 10s\n")
+		env, err := vfC04NewWatchEnv()
 		if err != nil {
 			rt.Fatalf("VF-INCONCLUSIVE cannot create the ServiceRegistry controller: %v", err)
 		}
-		entity.InitWithRecovery(nil)
-		sr := entity.Instance().(*serviceregistry.ServiceRegistry)
-		var sysCtrls sync.Map
-		sysCtrls.Store(serviceregistry.Kind, entity)
-		super := supervisor.NewMock(option.New(), nil, sync.Map{}, sysCtrls, nil, nil, false, nil, nil)
+		sr, super := env.sr, env.super
 
-		driver := &vfC04Driver{notify: make(chan *serviceregistry.RegistryEvent)}
+		driver := vfC04NewDriver(nil)
 		registered := false
 		stuck := false // a permanent block was proven: nothing of this case can be shut down any more
 		register := func() {
@@ -247,25 +382,39 @@ func TestVerifC04Watcher(t *testing.T) {
 		}
 		var gens []gen
 		nextGen := 0
-		// guarded: call fn; a call that cannot return because the registry mutex is held by a
-		// dispatcher that is blocked for ever is reported with the proof
-		guarded := func(what string, fn func()) bool {
-			done := make(chan struct{})
-			go func() { fn(); close(done) }()
-			proof, err := vfC04Await(done, what)
+		// verdict turns the outcome of a wait into inconclusive / violation / go on
+		verdict := func(what, key, proof string, err error) bool {
 			if err != nil {
 				rt.Fatalf("VF-INCONCLUSIVE %v\n%s", err, m.history())
 			}
-			if proof != "" {
+			if key != "" {
 				stuck = true
-				m.violation(rt, "discovery-dispatch-blocked-forever", "%s cannot complete: %s", what, proof)
+				if !vf.HasKnown(key) {
+					// schedule dependent and not shut-down-able: may not replay, so keep the line in the log
+					t.Logf("VF-VIOLATION property=C04 key=[%s] %s cannot complete: %s\n%s", key, what, proof, m.history())
+				}
+				m.violation(rt, key, "%s cannot complete, so what discovery reports can never reach the pools: %s", what, proof)
 				return false
 			}
 			return true
 		}
+		// guarded: call fn (it may need the registry mutex) and wait until everything it caused has settled
+		guarded := func(what string, fn func()) bool {
+			done := make(chan struct{})
+			go func() { fn(); close(done) }()
+			key, proof, err := vfC04Await(done, true, what)
+			return verdict(what, key, proof, err)
+		}
+		settle := func(what string) bool {
+			key, proof, err := vfC04Await(vfC04Closed, true, what)
+			return verdict(what, key, proof, err)
+		}
 		defer func() {
 			if stuck {
-				return // goroutines of this case stay behind (they are blocked for ever by the defect found)
+				// goroutines of this case stay behind (they are blocked for ever by the defect found);
+				// remember them so that later cases (rapid shrinking the failure) are not judged on them
+				vfC04Base = vfC04StableSnapshot()
+				return
 			}
 			for _, g := range gens {
 				g := g
@@ -302,9 +451,12 @@ func TestVerifC04Watcher(t *testing.T) {
 		if driverFirst {
 			rep0, _ := vfC04GenReport(rt, p, 0, nil, false)
 			p.steerReport(vf, &rep0)
-			driver.set(rep0.asRegistryMap(p))
 			register()
-			m.logf("registry driver registered before the pool, content %s", rep0)
+			kind, key, proof, err := driver.sync(rep0.asRegistryMap(p))
+			if !verdict("the driver's first sync", key, proof, err) {
+				return
+			}
+			m.logf("registry driver registered before the pool, first sync (%s) %s", kind, rep0)
 			// every first lookup returns rep0 (a watcher's initial event carries the same content)
 			p.cands, _ = vfC04ListsAfter(p, rep0)
 			p.lastReport = &rep0
@@ -317,18 +469,34 @@ func TestVerifC04Watcher(t *testing.T) {
 		vf.Class(fmt.Sprintf("watch-first-lookup-failed=%v", !driverFirst))
 
 		nontrivial := false
-		delivered, closedSince, reportsSinceClose := 0, false, 0
+		delivered, closedSince, reportsSinceClose, reregistered := 0, false, 0, false
 		slot := 0
-		steps := rapid.IntRange(3, 9).Draw(rt, "steps")
+		burst := func(why string) bool {
+			// a resync storm: the registry is told the (unchanged) content several times in a row
+			for b := 0; b < vfC04Burst; b++ {
+				key, proof, err := driver.send(&serviceregistry.RegistryEvent{SourceRegistryName: driver.Name(), UseReplace: true, Replace: driver.content()})
+				if !verdict("a registry resync", key, proof, err) {
+					return false
+				}
+			}
+			m.logf("%d registry resyncs of the unchanged content (%s)", vfC04Burst, why)
+			vf.Class("watch-resync-burst")
+			return settle("settling after the resyncs")
+		}
+		steps := rapid.IntRange(3, 10).Draw(rt, "steps")
 		for i := 0; i < steps && !m.abandoned; i++ {
-			kind := rapid.SampledFrom([]string{"report", "report", "report", "report", "select", "select", "select",
-				"update", "update", "second", "close", "listing-fails"}).Draw(rt, "step")
+			kind := rapid.SampledFrom([]string{"report", "report", "report", "report", "removal", "select", "select", "select",
+				"update", "update", "second", "close", "listing-fails", "re-register", "burst"}).Draw(rt, "step")
 			if i == 1 && delivered == 0 {
 				kind = "report"
 			}
 			switch kind {
-			case "report":
-				rep, deriv := vfC04GenReport(rt, p, 0, p.lastReport, false)
+			case "report", "removal":
+				force := ""
+				if kind == "removal" {
+					force = "subset" // an instance only disappears, nothing else changes
+				}
+				rep, deriv := vfC04GenReportD(rt, p, 0, p.lastReport, false, force)
 				p.steerReport(vf, &rep)
 				if !registered {
 					// the driver comes up now; like a real driver its first sync reports everything
@@ -338,49 +506,44 @@ func TestVerifC04Watcher(t *testing.T) {
 				}
 				before := p.cands
 				cands, _ := vfC04ListsAfter(p, rep)
-				m.logf("discovery reports %s (%s) to %d open generation(s) -> current list %s", rep, deriv, len(gens), vfC04Union(cands))
-				proof, err := driver.report(rep.asRegistryMap(p))
-				if err != nil {
-					rt.Fatalf("VF-INCONCLUSIVE %v\n%s", err, m.history())
-				}
-				if proof != "" {
-					stuck = true
-					m.violation(rt, "discovery-dispatch-blocked-forever", "the report above can never reach the pools: %s", proof)
+				ekind, key, proof, err := driver.sync(rep.asRegistryMap(p))
+				m.logf("discovery reports %s (%s, driver event: %s) to %d open generation(s) -> current list %s", rep, deriv, ekind, len(gens), vfC04Union(cands))
+				if !verdict("the report above", key, proof, err) || !settle("applying the report above") {
 					return
 				}
 				m.classifyTransition(before, cands, "watch-")
 				p.cands, p.lastReport, p.replaced = cands, &rep, true
 				delivered++
-				vf.Class("watch-report-delivered", "watch-report-derivation="+deriv, fmt.Sprintf("watch-report-to-generations=%d", len(gens)))
+				vf.Class("watch-report-delivered", "watch-report-derivation="+deriv, "watch-driver-event="+ekind, fmt.Sprintf("watch-report-to-generations=%d", len(gens)))
 				if closedSince {
 					reportsSinceClose++
 					vf.Class("watch-report-after-a-generation-was-closed")
+				}
+				if reregistered {
+					vf.Class("watch-report-after-driver-re-registration")
 				}
 				// non-trivial: the list the statement asks for differs from the one in use before
 				if vfC04Union(before) != vfC04Union(cands) {
 					nontrivial = true
 				}
+			case "burst":
+				if !registered || !driver.firstDone {
+					continue
+				}
+				if !burst("periodic") {
+					return
+				}
 			case "listing-fails":
-				if !registered || p.lastReport == nil {
+				if !registered || !driver.firstDone {
 					continue
 				}
 				// a resync during a transient backend outage: the registry cannot list the service, so
 				// nothing is reported and the list last reported stays the current one
 				driver.setFailing(true)
-				var proof string
-				var err error
-				for b := 0; b < vfC04Heartbeats && proof == "" && err == nil; b++ {
-					if proof, err = driver.send(&serviceregistry.RegistryEvent{UseReplace: true, Replace: p.lastReport.asRegistryMap(p)}); proof == "" && err == nil {
-						proof, err = driver.send(&serviceregistry.RegistryEvent{})
-					}
-				}
+				key, proof, err := driver.send(&serviceregistry.RegistryEvent{SourceRegistryName: driver.Name(), UseReplace: true, Replace: driver.content()})
+				ok := verdict("a registry resync", key, proof, err) && settle("settling after the failed listing")
 				failed := driver.setFailing(false)
-				if err != nil {
-					rt.Fatalf("VF-INCONCLUSIVE %v\n%s", err, m.history())
-				}
-				if proof != "" {
-					stuck = true
-					m.violation(rt, "discovery-dispatch-blocked-forever", "resync events can never be handled: %s", proof)
+				if !ok {
 					return
 				}
 				m.logf("registry resync while the backend listing fails (%d failed listings): nothing reported, current list stays %s", failed, vfC04Union(p.cands))
@@ -388,6 +551,22 @@ func TestVerifC04Watcher(t *testing.T) {
 					vf.Class("watch-listing-failed-during-dispatch")
 					nontrivial = nontrivial || vfC04Union(p.cands) != vfC04Union([][]vfC04Srv{p.static})
 				}
+			case "re-register":
+				if !registered {
+					continue
+				}
+				// the driver's spec is updated: the previous driver object closes (DeregisterRegistry), a new
+				// one (own notify channel, first sync pending) registers under the same name. Nothing is
+				// reported by that, the lists stay.
+				if !guarded("deregistering the registry driver", func() { sr.DeregisterRegistry(vfC04RegistryName) }) {
+					return
+				}
+				registered = false
+				driver = vfC04NewDriver(driver.content())
+				register()
+				reregistered = true
+				m.logf("registry driver deregistered and registered again (new driver object, same content); %d generation(s) keep watching", len(gens))
+				vf.Class("watch-driver-re-registered")
 			case "update", "second":
 				if len(gens) >= 3 {
 					continue
@@ -416,6 +595,12 @@ func TestVerifC04Watcher(t *testing.T) {
 				closedSince = true
 				m.logf("generation %d closed (%d still open)", g.id, len(gens))
 				vf.Class(fmt.Sprintf("watch-closed-one-generation-leaving=%d", len(gens)))
+				if registered && driver.firstDone && rapid.Bool().Draw(rt, "resyncs-after-close") {
+					vf.Class("watch-resync-burst-after-close")
+					if !burst("after a generation was closed") {
+						return
+					}
+				}
 			case "select":
 				// every open generation must be on the list last reported
 				k := rapid.IntRange(1, 4).Draw(rt, "k")
@@ -433,9 +618,8 @@ func TestVerifC04Watcher(t *testing.T) {
 						if reportsSinceClose > 0 {
 							vf.Class("watch-selection-after-close-and-report")
 						}
-						// membership, no-server-only-if-empty, zero weight, no panic/error. Fairness and
-						// stickiness are not judged here: heartbeats of the same content may still be
-						// re-installing the (identical) list while requests run.
+						// membership, no-server-only-if-empty, zero weight, no panic/error (fairness and
+						// stickiness are the business of the other targets)
 						if !m.checkOutcome(rt, p, r, o, p.cands) {
 							return
 						}
